@@ -69,9 +69,9 @@ def compile_reused(doc, uri='u'):
 
 def compile_json(doc, uri='u'):
     """Compile a document that went through JSON (as a consumer of the ndjson stream would hold it): same values, but none of
-    its strings is the same object as a literal in the library.  ('ok', pickles) or ('exc', text)."""
+    its strings is the same object as a literal in the library, and every dictionary lists its keys alphabetically (as the golden ndjson files do).  ('ok', pickles) or ('exc', text)."""
     import json
-    d_in = json.loads(json.dumps(doc))
+    d_in = json.loads(json.dumps(doc, sort_keys=True))       # keys in another order than the builder's (location: column before line)
     d_in['uri'] = uri
     try:
         return ('ok', Compiler(generator_at(max_id(doc) + 1)).compile(d_in))
@@ -79,10 +79,25 @@ def compile_json(doc, uri='u'):
         return ('exc', '%s: %s' % (type(e).__name__, e))
 
 
+def compile_twice(doc, uri='u'):
+    """The same document object compiled twice by one Compiler (ids restarted in between): the second result."""
+    d_in = copy.deepcopy(doc)
+    d_in['uri'] = uri
+    start = max_id(doc) + 1
+    try:
+        c = Compiler(generator_at(start))
+        c.compile(d_in)
+        c.id_generator = generator_at(start)
+        return ('ok', c.compile(d_in))
+    except Exception as e:  # noqa: BLE001
+        return ('exc', '%s: %s' % (type(e).__name__, e))
+
+
 def routes(doc, got):
     """[(route name, result)] for a document: fresh compiler (already computed), long-lived compiler, JSON round trip."""
     return (('fresh compiler', got), ('compiler that compiled other documents before', compile_reused(doc)),
-            ('document that went through JSON', compile_json(doc)))
+            ('document that went through JSON', compile_json(doc)),
+            ('second compilation of the same document object by the same compiler', compile_twice(doc)))
 
 
 def compile_both(doc, uri='u'):
